@@ -3,7 +3,7 @@
 From Coq Require Import List String Bool Arith ZArith Lia.
 From Thunder Require Import Lib.Json Federation.Merge Federation.MergeProofsBase Federation.Normalize Federation.Planner
   Federation.Executor Federation.ExecutorProofs Federation.NormalizeProofs Federation.PlannerProofs Federation.FedBase
-  Federation.FedSem Federation.FedPlanSem.
+  Federation.FedSem Federation.FedPlanSem Federation.Premises.
 Import ListNotations.
 Open Scope string_scope.
 Open Scope list_scope.
@@ -162,14 +162,6 @@ Proof.
       destruct (head_of (n_alias n) t) eqn:Eh; [discriminate|]. rewrite (subs_of_none _ _ Eh), app_nil_r. reflexivity.
     + rewrite String.eqb_sym, E. apply IH.
 Qed.
-
-(** ** queries as the parser delivers them, without directives on field selections (decidable) *)
-Fixpoint qwf (n : node) : bool :=
-  match n with
-  | NField _ _ _ _ dirs hs subs =>
-      match dirs with [] => true | _ => false end && (hs || match subs with [] => true | _ => false end) && forallb qwf subs
-  | NFrag _ _ subs => forallb qwf subs
-  end.
 
 Definition qwfP (n : node) : Prop := qwf n = true.
 
